@@ -193,6 +193,118 @@ def execute(hid, ops, sched_seed, agents=None):
             "late_pub": w.late_publications(), "asub_delivered": list(w.asub_delivered)}, w
 
 
+PROTO_CFG = """INIT Init
+NEXT Next
+INVARIANT DirectoryTrueInOrder
+INVARIANT ConvergedIfNeverDropped
+INVARIANT SubscribedAtDirectory
+INVARIANT ViewsNameRealHosts
+VIEW View
+ACTION_CONSTRAINT Edge
+"""
+PROTO_CEX_CFG = "INIT Init\nNEXT Next\nINVARIANT %s\nVIEW View\n"
+_KIND = {"publish_computation": ("pub", "added"), "unpublish_computation": ("unpub", "removed")}
+
+
+def proto_project(w, nops, comps):
+    """the real objects in the shape of DiscoveryProtocol!Proj"""
+    dd = w.w.directory
+
+    def summ(q, down):
+        out = []
+        for m in q:
+            t = m.msg.type
+            if t == "subscribe_computation":
+                out.append({"t": "sub", "c": m.msg.computation, "a": "on" if m.msg.subscribe else "off"})
+            elif t in _KIND:
+                out.append({"t": _KIND[t][1 if down else 0], "c": m.msg.computation, "a": m.msg.agent})
+            else:
+                out.append({"t": t, "c": "", "a": ""})
+        return out
+    disc = {a: w.w.agents[a].discovery for a in w.AG}
+    cbs = {a: {c: list(dict.get(disc[a]._computation_cbs, c, ())) for c in comps} for a in w.AG}
+    return {"vHost": {a: {c: disc[a]._computations_data.get(c, "") for c in comps} for a in w.AG},
+            "key": {a: {c: dict.__contains__(disc[a]._computation_cbs, c) for c in comps} for a in w.AG},
+            "pcb": {a: {c: sum(1 for _, one in cbs[a][c] if not one) for c in comps} for a in w.AG},
+            "ocb": {a: {c: sum(1 for _, one in cbs[a][c] if one) for c in comps} for a in w.AG},
+            "dHost": {c: dd._computations_data.get(c, "") for c in comps},
+            "dSub": {c: sorted(x.replace("_discovery_", "") for x in dict.get(dd._subscription_computations, c, ())) for c in comps},
+            "up": {a: summ(w.chan[(a, "orchestrator")], False) for a in w.AG},
+            "down": {a: summ(w.chan[("orchestrator", a)], True) for a in w.AG}, "nops": nops}
+
+
+def proto_op(a):
+    return {"k": "dl", "a": a["a"], "c": a["n"]} if a["n"] in ("up", "down") else {"k": a["n"], "a": a["a"], "c": a["c"]}
+
+
+def protocol_part(v, quick, hist):
+    """DiscoveryProtocol.tla: (1) model-checked exhaustively with the invariants that hold, every explored transition replayed on
+    the real Discovery / Directory objects with full projection comparison; (2) the statement itself (Converged, DirectoryTrue) is
+    violated in the model: TLC's counterexamples are executed on the real objects and judged with the other histories - they have
+    to show a violation there too (otherwise the model is wrong), and it has to be a known finding (otherwise it is reported)"""
+    from .. import replay as RP
+    tot = {"edges": 0, "paths": 0, "steps": 0, "configs": []}
+    configs = [({"c1"}, 4)] if quick else [({"c1"}, 6), ({"c1", "c2"}, 4)]
+    for comps, maxops in configs:
+        consts = dict(Agents=set(AGENTS), Comps=comps, MaxOps=maxops)
+        g, res = RP.dump_edges("DiscoveryProtocol", PROTO_CFG, consts=consts, heap="6g")
+        if res.violated or res.errors:
+            raise MachineryError("DiscoveryProtocol.tla: %s %s" % (res.violated, res.errors[:2]))
+        v.add_tlc(res, "exhaustive model checking of DiscoveryProtocol.tla (%d computation(s), at most %d API calls, all deliveries) + labelled edge dump" % (len(comps), maxops))
+        cl = sorted(comps)
+        init = proto_project(World(0), 0, cl)
+        paths = g.cover(init, max_len=40)
+        tot["edges"] += g.nedges
+        tot["configs"].append({"computations": len(comps), "max_api_calls": maxops, "states": res.distinct, "edges": g.nedges, "paths": len(paths)})
+        for pi, path in enumerate(paths):
+            w = World(0)
+            nops = 0
+            for k, (a, exp) in enumerate(path):
+                w.op(proto_op(a))
+                if a["n"] not in ("up", "down"):
+                    nops += 1
+                tot["steps"] += 1
+                got = proto_project(w, nops, cl)
+                exp = dict(exp, dSub={c: sorted(x) for c, x in exp["dSub"].items()})
+                diff = RP.first_diff(got, exp)
+                if diff:
+                    v.divergence("DiscoveryProtocol path %d step %d (%s): real objects differ from the model at %s" % (pi, k, a, diff))
+                    break
+            if w.w.exc:
+                v.divergence("DiscoveryProtocol path %d: handler raised %s" % (pi, w.w.exc[0][4][:80]))
+        tot["paths"] += len(paths)
+    # the statement, unrestricted
+    cex = []
+    for inv in ("Converged", "DirectoryTrue"):
+        res = tlc.run("DiscoveryProtocol", PROTO_CEX_CFG % inv, consts=dict(Agents=set(AGENTS), Comps={"c1"}, MaxOps=4), workers=1)
+        acts = [st["act"] for st in (res.trace_json or [])[1:] if isinstance(st.get("act"), dict)]
+        if not res.violated:
+            v.notes.append("DiscoveryProtocol.tla no longer violates %s within 4 API calls" % inv)
+            continue
+        if not acts:
+            raise MachineryError("DiscoveryProtocol.tla violates %s and TLC gave no counterexample" % inv)
+        v.add_tlc(res, "DiscoveryProtocol.tla, the statement itself (%s): violated in the model, counterexample of %d steps" % (inv, len(acts)))
+        script = [proto_op(a) for a in acts]
+        h, w = execute(len(hist), script, 0)
+        hist.append(h)
+        # the real objects end where the model's counterexample ends
+        last = res.trace_json[-1]
+        got = proto_project(w, 0, ["c1"])
+        for f in ("vHost", "dHost"):
+            if got[f] != last[f]:
+                raise MachineryError("DiscoveryProtocol.tla violates %s; the real objects, driven along TLC's counterexample %s, end with %s = %s "
+                                     "where the model has %s: the model is wrong" % (inv, script, f, got[f], last[f]))
+        if inv == "Converged":          # (DirectoryTrue is not part of the statement: it is the root cause of one of the findings)
+            cex.append((h["id"], inv, script))
+        v.cov.setdefault("statement_counterexamples_reproduced_on_the_real_objects", []).append(
+            {"invariant": inv, "script": ["%s(%s,%s)" % (o["k"], o["a"], o["c"]) for o in script], "real_final": {f: got[f] for f in ("vHost", "dHost")}})
+    v.cov["discovery_protocol_model"] = tot
+    v.cov["replayed_paths"] = tot["paths"]
+    v.cov["replayed_steps"] = tot["steps"]
+    v.cov["model_edges"] = tot["edges"]
+    return cex
+
+
 def run(tier):
     quick = tier == "quick"
     v = Verdict("C20", tier, "model_checking")
@@ -243,9 +355,14 @@ def run(tier):
             # (histories without explicit deliveries are drained at their end: once in a random order, once per priority order)
             h, _ = execute(len(hist), case["ops"], 3 * r.randrange(10 ** 6) + (rep if not explicit else 0), case.get("agents"))
             hist.append(h)
+    cex = protocol_part(v, quick, hist)
     from ..judge import judge
     verdicts, jres = judge("Judge_C20", hist, strip=("refused", "script", "sched_seed", "late_pub", "asub_delivered"))
     v.add_tlc(jres, "convergence judged on %d executed histories (Judge_C20 / Discovery.tla)" % len(hist))
+    for hid, inv, script in cex:
+        if not verdicts[hid]:
+            raise MachineryError("DiscoveryProtocol.tla violates %s but the real objects, driven along TLC's counterexample %s, "
+                                 "converge: the model is wrong" % (inv, script))
     refused = collections.Counter()
     for h in hist:
         v.cov["evaluations"] += 1
